@@ -140,6 +140,9 @@ func desc(v ssa.Value, depth int) string {
 	d := depth - 1
 	switch x := v.(type) {
 	case *ssa.Parameter:
+		if a, ok := paramSubst[x]; ok && a != x {
+			return desc(a, depth)
+		}
 		return x.Name()
 	case *ssa.FreeVar:
 		return "free:" + x.Name()
